@@ -661,3 +661,10 @@ func mayRecover(fn *ssa.Function) bool {
 	})
 	return rec
 }
+
+func lastInstr(bb *ssa.BasicBlock) ssa.Instruction {
+	if len(bb.Instrs) == 0 {
+		return nil
+	}
+	return bb.Instrs[len(bb.Instrs)-1]
+}
